@@ -65,7 +65,7 @@ def cases(rng, tier):
                 if f in ("sort", "unique", "unique_counts", "cumsum") and np.dtype(dt).kind == "i" and rng.random() < 0.4:
                     # the operand was sorted before and its cells were changed IN PLACE afterwards (negated, or overwritten through
                     # the flat view): whatever was known about the old cells no longer holds
-                    out.append(dict(p, pre=rng.choice(["sort_neg", "sort_flat"]), vseed=rng.randint(0, 9999)))
+                    out.append(dict(p, pre=rng.choice(["sort_neg", "sort_flat", "resort_neg", "resort_flat", "resort_row"]), vseed=rng.randint(0, 9999)))
     return out
 
 
@@ -155,6 +155,21 @@ def _pre(p, obj, is_ra):
             b = obj.sort(axis=-1) if is_ra else np.sort(obj)
             b *= -1
             return b
+        if pre in ("resort_neg", "resort_flat", "resort_row"):
+            # the operand ITSELF was sorted / de-duplicated before (results thrown away), then its cells were changed in place: by an
+            # in-place operator, through the flat view, through a row view
+            if is_ra:
+                obj.sort(axis=-1); np.unique(obj, axis=-1)
+                if pre == "resort_neg":
+                    obj *= -1
+                elif pre == "resort_flat":
+                    flat = obj.ravel(); np.invert(flat, out=flat)
+                else:
+                    for i in range(len(obj)):
+                        row = obj[i]
+                        np.invert(row, out=row)
+                return obj
+            return -obj if pre == "resort_neg" else np.invert(obj)
         if pre == "sort_flat":
             b = obj.sort(axis=-1) if is_ra else np.sort(obj)
             flat = b.ravel() if is_ra else b
